@@ -20,7 +20,7 @@ from pyvc.explore import explore
 from pyvc.interp import Interp, PathState
 from pyvc.values import DictObj, IdStr, ListObj, Obj, OutOfSubset, PyRaise
 
-from .common import REPO, Result, run_venv
+from .common import REPO, Result, run_venv, tierb_json
 
 
 class SymCache:
@@ -201,6 +201,23 @@ def run(tier: str, seed: int) -> int:
     n_obl = n_ok = 0
     per = {}
     samples = []
+    # the contract used below for Tokenizer.tokenize ("a function of the text, fresh list") is an obligation here too
+    from .c11 import tokenizer_stateless
+
+    try:
+        I.load_module("mathy_core.tokenizer")
+        for ob in tokenizer_stateless(I, REPO):
+            if ob.get("undecided"):
+                R.undecided.append(f"tokenizer: {ob['detail']}")
+                continue
+            n_obl += 1
+            per["Tokenizer.tokenize"] = per.get("Tokenizer.tokenize", 0) + 1
+            if ob["ok"]:
+                n_ok += 1
+            else:
+                R.violation(f"obligation C12/{ob['clause']} failed: {ob['detail'][:240]}", {"obligation": ob}, False)
+    except OutOfSubset as e:
+        R.undecided.append(f"tokenizer: out-of-subset: {e}")
     for meth in ("tokenize", "parse", "clear_cache"):
         try:
             outs = explore(lambda ps, m=meth: method_path(I, ps, m))
@@ -227,7 +244,7 @@ def run(tier: str, seed: int) -> int:
     if p.returncode not in (0, 1):
         R.engine_errors.append("tier-B failed: " + p.stderr[-300:])
     else:
-        bounded = json.loads(p.stdout)
+        bounded = tierb_json(p, R)
         for f in bounded.get("failures", [])[:6]:
             R.violation(f"bounded check on real code: {f['clause']}: {f['detail'][:300]}", {"failure": f}, True)
     R.level = "proof" if not R.undecided and n_ok == n_obl else "other"
@@ -235,7 +252,7 @@ def run(tier: str, seed: int) -> int:
         "obligations": n_obl,
         "discharged": n_ok,
         "checker_cmd": f"/verif/bin/check C12 --tier {tier}",
-        "trusted_base": ["pyvc symbolic executor", "_parse is a function of its token list and consumes it (C10 sticky-state analysis, C03/C10 enumeration)", "Tokenizer.tokenize is pure and returns a fresh list (C11)",
+        "trusted_base": ["pyvc symbolic executor", "_parse is a function of its token list and consumes it (C10 sticky-state analysis, C03/C10 enumeration)", "Tokenizer.tokenize is a function of the text and returns a list created by the call (obligations Tokenizer/stateless/*, shared with C11); its segmentation is proved in C11",
                          "induction over the call history (meta-argument; its step is the invariant-preservation obligations)",
                          "scope: Token objects and cached tree objects are shared with callers; mutating those objects is outside the property's history alphabet"],
         "obligations_per_method": per,
